@@ -45,7 +45,8 @@ constexpr auto log1p_check(T const x) noexcept -> T
         is_nan(x) ? etl::numeric_limits<T>::quiet_NaN() :
                   //
             abs(x) > T(1e-04) ? // if
-            log(T(1) + x)
+            // log(u) * x / (u - 1) with u = fl(1 + x) compensates the rounding of 1 + x (Kahan)
+            (T(1) + x == T(1) ? x : abs(x) < T(0.5) ? log(T(1) + x) * (x / ((T(1) + x) - T(1))) : log(T(1) + x))
                               :
                               // else
             log1p_compute(x)
